@@ -34,7 +34,8 @@ def run(sh):
 
     # pallets of boxes: batches whose members are batches, taken apart in two steps; the history rule reaches every
     # part at every depth (buffers and sinks count direct members there, so only the batching monitor runs)
-    engine_line.run_profile(sh, 'C17', 'batching', n // 3, ('batching',), nontrivial, prefix='pallets_',
+    engine_line.run_profile(sh, 'C17', 'batching', n // 3 if sh.tier == 'quick' else n // 8, ('batching',), nontrivial,
+                            prefix='pallets_',
                             overrides={'p_nested_batch': 1.0, 'p_batch_source': 0.95, 'p_insert': 0,
                                        'stage_w': {'batcher': 7, 'buffer': 2, 'gates': 2, 'handler': 2, 'processor': 2}},
                             tag='nested')
